@@ -81,6 +81,13 @@ def run(ctx, rep):
                    "oversleeps)" % (A.src(c.args[0]) if c.args else "<default>"), ctx.loc(c), kind="site")
 
     # ---- R14.3
+    wf = A.find_calls(f.node, "self.%s.wait_for" % cond)
+    rep.ob("R14.3", "serve(): the loser of the try-lock waits unconditionally for the next hand-off (no predicate)", not wf,
+           "Condition.wait(), re-checking its own result after every wake-up" if not wf else
+           "the loser waits with wait_for(<predicate>): Condition.wait_for goes back to sleep whenever the predicate is false at "
+           "the moment of the wake-up (e.g. another waiter has re-taken the receive lock), although this thread's reply may "
+           "already have been processed - it then sleeps until further traffic or its timeout", ctx.loc(wf[0]) if wf else f.loc,
+           kind="site")
     rd = Q.ReachingDefs(g)
     waits = [n for n in g.live if n.ast is not None and n.kind in ("stmt", "test") and A.find_calls(n.ast, "self.%s.wait" % cond)]
     rep.floor("R14.3", "condition waits in serve()", len(waits), 1)
